@@ -143,6 +143,15 @@ def world_specs(tier):
             [("seal", "d", ["md5"], [], ok), ("seal", "", ["md5"], [], ok), ("seal", "", ["c4"], ["-n"], ok)],
         )
     )
+    # nested histories at and below hidden (dot) folders, and in folders with unusual names: they are histories like any other
+    sp.append(
+        (
+            "hidden",
+            {"top.txt": "t", ".offload/A001/clip.bin": "c", ".offload/A001/sub/s.txt": "s", ".hid/f.txt": "f", "vis/.inner/g.txt": "g", "vis/v.txt": "v"},
+            [("seal", ".offload/A001", ["md5"], [], ok), ("seal", ".hid", ["xxh64"], [], ok), ("seal", "vis/.inner", ["md5"], [], ok),
+             ("seal", "", ["md5"], [], ok), ("seal", ".offload/A001", ["md5"], [], ok)],
+        )
+    )
     # a manifest that is larger than one read block (a long comment), to reach byte positions beyond 1 MiB
     sp.append(("bigmanifest", "single", [("seal", "", ["md5"], ["--comment", "c" * (M + 300)], ok), ("seal", "", ["md5"], [], ok)]))
     # interrupted create (killed before its k-th writing operation), then the faults; in thorough every k
